@@ -34,6 +34,12 @@ func (w *writeInPlaceHandlerImpl) CreateTempFile() (*os.File, error) {
 	if err != nil {
 		return nil, err
 	}
+	// chown first: changing the owner clears the setuid/setgid bits, so the
+	// mode has to be applied afterwards to survive.
+	_ = verifhook.Step("inplace.chown", file.Name())
+	if err = changeOwner(info, file); err != nil {
+		return nil, err
+	}
 	if err = verifhook.Step("inplace.chmod", file.Name()); err != nil {
 		return nil, err
 	}
@@ -43,10 +49,6 @@ func (w *writeInPlaceHandlerImpl) CreateTempFile() (*os.File, error) {
 		return nil, err
 	}
 
-	_ = verifhook.Step("inplace.chown", file.Name())
-	if err = changeOwner(info, file); err != nil {
-		return nil, err
-	}
 	log.Debug("WriteInPlaceHandler: writing to tempfile: %v", file.Name())
 	w.tempFile = file
 	return file, err
